@@ -6,12 +6,15 @@ What is *not* a theorem (floating-point evaluation of the trigonometric coordina
 LORCoordinates.inl in floating point, detector coordinates of blocks/generic scanners and their `get_bin`,
 `overlap_interpolate` / arc correction of rows) is covered by the correspondence run and the oracle of checks/c12.py only.
 
-The model describes the code after the fixes C12-1 … C12-5 (build/fixes).  Clauses of the property that the code does not
+The model describes the code after the fixes C12-1 … C12-8 (build/fixes); for C12-6 (`get_sino_coords` direction) and C12-7
+(`get_bin` view wrap) the model functions take a flag, so that the code before the fix has a witness of its failure
+(`…_before_fix_witness`) and the driver can follow whichever code the harness finds.  Clauses of the property that the code does not
 satisfy (known findings, not repaired) have a negative witness `…_fails` and the positive theorem is named `…_partial`:
 * `roundtrip:miss-at-tangential-edge`            → `C12_roundtrip_miss_at_tangential_edge_fails`, `C12_roundtrip_inside_tangential_range_partial`
 * `obliqueness:ring-pair-list-cut-at-axial-edge` → `C12_obliqueness_cut_at_axial_edge_fails`, `C12_obliqueness_is_average_partial`
 * `obliqueness:even-number-of-ring-differences-per-segment` → `C12_obliqueness_even_span_fails`, same `_partial` theorem
-* `generic:get_bin-needs-exact-crystal-coordinates` → oracle only (the crystal map is data, its look-up is not modelled)
+* `generic:get_bin-needs-exact-crystal-coordinates`, `generic:get_bin-no-tof`, `generic:no-coordinates-for-axially-compressed-bins`
+  → oracle only (the crystal map is data, its look-up is not modelled)
 -/
 import StirVerif.C12.ProofsTrans
 import StirVerif.C12.ProofsChord
@@ -21,6 +24,8 @@ import StirVerif.C12.ProofsArc
 import StirVerif.C12.ProofsOverlap
 import StirVerif.C12.ProofsObliq
 import StirVerif.C12.ProofsRt
+import StirVerif.C12.ProofsLor
+import StirVerif.C12.ProofsVia
 
 namespace StirVerif.C12
 open Real
@@ -115,12 +120,36 @@ theorem C12_roundtrip_inside_tangential_range_partial (m v tp e1 e2 minT maxT : 
     view mashing, any number of rings / segments / TOF) lists is a miss or a bin at most one step away in view and tangential
     position (with the last-view/first-view sign reversal) whose tangential position is inside the data.
     (Segment, axial position and TOF bin of the answer are compared with the code by the correspondence and checked by the
-    oracle, they are not part of this theorem.) -/
+    oracle, they are not part of this theorem.)
+    Since the extension of the model by the LOR representations (`CylGeom.roundTripVia`: the LOR handed over as cylinder
+    coordinates, sinogram coordinates with `s`, two points on the cylinder or moved along the line, reversed) the same `rt`-style
+    comparison runs for every representation (`rtx` operations); `C12_roundtrip_via_eq_roundTrip` shows that for the
+    representations that keep the direction the model's answer list is this very list, so the theorem covers them as well. -/
 theorem C12_roundtrip_model_transaxial (g : CylGeom) (m : Int) (b : Bin) (hN : g.N = 2 * m) (hm : 0 < m) (hmash : g.mash = 1)
     (hv : 0 ≤ b.view ∧ b.view < m) (ht : -m < b.tang ∧ b.tang < m) (r : RtResult) (hr : r ∈ g.roundTrip b) :
     r = RtResult.miss ∨ ∃ nb flag, r = RtResult.bin nb ∧ StepClose m b.view b.tang (nb.view, nb.tang, flag) ∧
       g.minTang ≤ nb.tang ∧ nb.tang ≤ g.maxTang :=
   roundTrip_stepClose g m b hN hm hmash hv ht r hr
+
+/-- "… converting its reported line of response back to a bin …" with the reported LOR handed over in another representation
+    that keeps its direction (`LORInCylinderCoordinates`, `LORInAxialAndSinogramCoordinates`, `LORAs2Points` on the cylinder or
+    moved along the line): the model's `get_bin ∘ (representation change) ∘ get_LOR`, which goes through explicit cylinder
+    coordinates `ψ = φ ± β` (`LorNA.toCyl`, angles modulo 2π), lists exactly the answers of `roundTrip`, for every number of
+    detectors, view mashing factor, rings, segments and TOF (`hphi`: the view is a view of the data) -/
+theorem C12_roundtrip_via_eq_roundTrip (g : CylGeom) (b : Bin) (k : LorKind) (hk : k.reversed = false) (hN : 0 < g.N)
+    (hphi : 0 ≤ 2 * g.mash * b.view + g.mash - 1 ∧ 2 * g.mash * b.view + g.mash - 1 < g.N) :
+    g.roundTripVia 0 k b = g.roundTrip b :=
+  roundTripVia_eq_roundTrip g b k hk hN hphi
+
+/-- … hence every answer for such a representation is a miss or at most one step away in view and tangential position, inside
+    the data (the statement of `C12_roundtrip_model_transaxial` for the `rtx` operations of the driver) -/
+theorem C12_roundtrip_via_transaxial (g : CylGeom) (m : Int) (b : Bin) (k : LorKind) (hk : k.reversed = false)
+    (hN : g.N = 2 * m) (hm : 0 < m) (hmash : g.mash = 1)
+    (hv : 0 ≤ b.view ∧ b.view < m) (ht : -m < b.tang ∧ b.tang < m) (r : RtResult) (hr : r ∈ g.roundTripVia 0 k b) :
+    r = RtResult.miss ∨ ∃ nb flag, r = RtResult.bin nb ∧ StepClose m b.view b.tang (nb.view, nb.tang, flag) ∧
+      g.minTang ≤ nb.tang ∧ nb.tang ≤ g.maxTang := by
+  rw [C12_roundtrip_via_eq_roundTrip g b k hk (by omega) (by rw [hmash, hN]; omega)] at hr
+  exact roundTrip_stepClose g m b hN hm hmash hv ht r hr
 
 /-- the smallest geometry of the known finding `roundtrip:miss-at-tangential-edge`: 8 detectors, 1 ring, span 1, 4 views,
     3 tangential positions -1 … 1 (neither axially compressed nor at an axial edge) -/
@@ -250,7 +279,9 @@ theorem C12_tof_beyond_last_goes_to_first (T : TofTable) (hinc : 0 < T.inc) (hod
 /-- "for every bin, converting its reported line of response back to a bin returns the same bin for arc-corrected data"
     — in exact arithmetic, for every well-formed geometry (any azimuthal offset: both the plain and the flipped
     representation of the LOR, the latter undone by the view-wrap rule of `get_bin`), TOF or not, and every bin of the data
-    (every TOF position: `get_bin` is given `get_tof_delta_time(bin)` as in the harness; repaired code, fix C12-3) -/
+    (every TOF position: `get_bin` is given `get_tof_delta_time(bin)` as in the harness; repaired code, fix C12-3).
+    `ArcGeom.getBin` now contains the view-wrap rule of fix C12-7 (`wrapView`); by `C12_arccorr_roundtrip_every_representation`
+    below the statement extends to the LOR handed over in any of the LOR types of LORCoordinates.h. -/
 theorem C12_arccorr_roundtrip (g : ArcGeom) (w : g.WF) (b : Bin) (sg : Seg) (r : g.InRange b sg) (l : LorS)
     (hl : g.lorOf b = some l) : g.getBin l (g.deltaTime b.tof) = some b :=
   arccorr_roundtrip g w b sg r l hl
@@ -271,6 +302,77 @@ theorem C12_arccorr_boxes (minTang maxTang : Int) (sampling : Rat) (tp : Int) (h
     (arcCorrCoords minTang maxTang sampling).length = (maxTang - minTang + 1).toNat + 1 :=
   ⟨(arcCorrCoords_box minTang maxTang sampling tp h1 h2).1, (arcCorrCoords_box minTang maxTang sampling tp h1 h2).2,
     arcCorrCoords_length minTang maxTang sampling⟩
+
+/-! ## the LOR representations of LORCoordinates.inl and the conversions between them -/
+
+/-- "converting its reported line of response back to a bin" — the reported LOR may be handed over in any LOR type; the
+    conversions keep the directed line.  Sinogram coordinates `(z1, z2, φ, β, swapped)` in the standard range → cylinder
+    coordinates (`LORInCylinderCoordinates(const LORInAxialAndNoArcCorrSinogramCoordinates&)`) → sinogram coordinates
+    (`get_sino_coords`, repaired code, fix C12-6) is the identity — for every `φ ∈ [0,π)`, `β ∈ (-π/2, π/2)`, swapped or not -/
+theorem C12_lor_sinogram_cylinder_roundtrip (l : LorNA) (h0 : 0 ≤ l.phi) (h1 : l.phi < 1) (hb0 : -(1/2) < l.beta)
+    (hb1 : l.beta < 1/2) : (l.toCyl).toNA true = l :=
+  toCyl_toNA l h0 h1 hb0 hb1
+
+/-- … and cylinder coordinates → sinogram coordinates → cylinder coordinates is the identity on every non-degenerate LOR (both
+    end points and their ORDER, i.e. the direction that TOF needs), the sinogram coordinates being in the standard range -/
+theorem C12_lor_cylinder_sinogram_roundtrip (c : LorCyl) (h1 : 0 ≤ c.psi1 ∧ c.psi1 < 2) (h2 : 0 ≤ c.psi2 ∧ c.psi2 < 2)
+    (hne : c.psi1 ≠ c.psi2) :
+    (c.toNA true).toCyl = c ∧ 0 ≤ (c.toNA true).phi ∧ (c.toNA true).phi < 1 ∧
+      -(1/2) < (c.toNA true).beta ∧ (c.toNA true).beta < 1/2 :=
+  toNA_toCyl c h1 h2 hne
+
+/-- WITNESS of the defect repaired by fix C12-6: with the flags as they were (`fixed = false`), the LOR from the point `ψ = 1.6π`
+    (z = 1) to the point `ψ = 0.1π` (z = 2) comes back from sinogram coordinates with its two points exchanged: the direction is
+    reversed (`ψ1 - ψ2 ∈ (π, 2π)`); with the repair it comes back unchanged -/
+theorem C12_lor_direction_before_fix_witness :
+    ((⟨1, 8/5, 2, 1/10⟩ : LorCyl).toNA false).toCyl = ⟨2, 1/10, 1, 8/5⟩ ∧
+    ((⟨1, 8/5, 2, 1/10⟩ : LorCyl).toNA true).toCyl = ⟨1, 8/5, 2, 1/10⟩ := by decide +kernel
+
+/-- the constructor from explicit arguments (any `φ`; it is brought into `[0,π)` by exchanging the end points and toggling
+    `swapped`) does not change the directed line, and its result is in the standard range -/
+theorem C12_lor_constructor_normalisation (z1 z2 phi beta : Rat) (sw : Bool) :
+    (LorNA.mk' z1 z2 phi beta sw).toCyl = (⟨z1, z2, phi, beta, sw⟩ : LorNA).toCyl ∧
+      0 ≤ (LorNA.mk' z1 z2 phi beta sw).phi ∧ (LorNA.mk' z1 z2 phi beta sw).phi < 1 :=
+  ⟨mk'_toCyl z1 z2 phi beta sw, (mk'_range z1 z2 phi beta sw).1, (mk'_range z1 z2 phi beta sw).2.1⟩
+
+/-- toggling `swapped` of the sinogram form = exchanging the two points of the cylinder form (the reversed line) -/
+theorem C12_lor_reverse (l : LorNA) : l.reverse.toCyl = l.toCyl.reverse :=
+  reverse_toCyl l
+
+/-- "for every bin, converting its reported line of response back to a bin returns the same bin for arc-corrected data" — in
+    EVERY representation of the reported LOR (`k`: the object returned by `get_LOR`, `LORInCylinderCoordinates`,
+    `LORInAxialAndSinogramCoordinates`, `LORAs2Points` on the cylinder or moved along the line; and the same with the direction
+    reversed, where the TOF position changes sign and nothing else), in exact arithmetic, for every well-formed geometry and
+    every bin and TOF position of the data (repaired code, fixes C12-3, C12-6, C12-7) -/
+theorem C12_arccorr_roundtrip_every_representation (g : ArcGeom) (w : g.WF) (b : Bin) (sg : Seg) (r : g.InRange b sg)
+    (l : LorS) (hl : g.lorOf b = some l) (k : LorKind) (beta : Rat) (hb0 : -(1/2) < beta) (hb1 : beta < 1/2) :
+    g.getBinVia true true k l beta (g.deltaTime b.tof) = some (if k.reversed then { b with tof := -b.tof } else b) :=
+  arccorr_roundtrip_via g w b sg r l hl k beta hb0 hb1
+
+/-- the view returned by the repaired arc-corrected `get_bin` (fix C12-7) is a view of the data, for EVERY line of response
+    (whatever its angle, in particular an angle a rounding error below the azimuthal offset) -/
+theorem C12_arccorr_getBin_view_in_range (g : ArcGeom) (hV : 0 < g.V) (l : LorS) (dt : Rat) (nb : Bin)
+    (h : g.getBin l dt = some nb) : 0 ≤ nb.view ∧ nb.view < g.V :=
+  getBin_view_range g hV l dt nb h
+
+/-- reversing the direction of a LOR changes the sign of the TOF position that the arc-corrected `get_bin` returns, and
+    nothing else ("stepping between the last and the first view reverses the signs of … TOF bin" relies on it) -/
+theorem C12_arccorr_getBin_reverse (fix : Bool) (g : ArcGeom) (l : LorS) (dt : Rat) :
+    g.getBinCore fix { l with swapped := !l.swapped } dt = (g.getBinCore fix l dt).map fun b => { b with tof := -b.tof } :=
+  getBinCore_reverse fix g l dt
+
+/-- the geometry of `exGeom` (below) with a positive azimuthal offset (π/16, as for view-mashed data) -/
+def exGeomMashed : ArcGeom :=
+  { V := 8, binSize := 2, spacing := 4, offset := (1 : Rat) / 16, minTang := -7, maxTang := 7, minSeg := -1,
+    segs := [⟨-4, -2, 5⟩, ⟨-1, 1, 9⟩, ⟨2, 4, 5⟩] }
+
+/-- WITNESS of the defect repaired by fix C12-7: the LOR of bin (segment 1, view 0, axial position 2, tangential position -3) of
+    `exGeomMashed` with its angle a thousandth of π below the azimuthal offset: the code before the fix returns
+    view 8 = `num_views` (out of range) with segment and tangential position negated; the repaired code returns the bin -/
+theorem C12_arccorr_view_wrap_before_fix_witness :
+    exGeomMashed.lorOf ⟨1, 0, 2, -3, 0⟩ = some ⟨-6, 6, 1/16, -6, false⟩ ∧
+    exGeomMashed.getBinCore false ⟨-6, 6, 1/16 - 1/1000, -6, false⟩ 0 = some ⟨-1, 8, 2, 3, 0⟩ ∧
+    exGeomMashed.getBinCore true ⟨-6, 6, 1/16 - 1/1000, -6, false⟩ 0 = some ⟨1, 0, 2, -3, 0⟩ := by decide +kernel
 
 /-! ## non-vacuity -/
 
@@ -389,5 +491,31 @@ example : ∀ l, exGeomTof.lorOf ⟨1, 0, 2, -3, -2⟩ = some l →
   fun l hl => C12_arccorr_roundtrip exGeomTof C12_ex_tof_wellformed ⟨1, 0, 2, -3, -2⟩ ⟨2, 4, 5⟩
     { hseg := by decide, hv := by decide, ha := by decide, ht := by decide,
       htof := by show (-2 : Int) ≤ -2 ∧ (-2 : Int) ≤ 2; decide } l hl
+
+/-- `C12_roundtrip_via_transaxial` applies to the bin of the negative witness handed over as stretched points: same answers -/
+example : exEdgeGeom.roundTripVia 0 .str ⟨0, 3, 0, -1, 0⟩ =
+    [.bin ⟨0, 3, 0, -1, 0⟩, .miss, .bin ⟨0, 3, 0, 0, 0⟩, .bin ⟨0, 0, 0, 1, 0⟩] := by decide +kernel
+
+/-- the hypotheses of the LOR round trips are satisfiable: a swapped LOR with negative `β` (the case that needs fix C12-6) and
+    its cylinder coordinates `ψ1 = 3π/2`, `ψ2 = 0` -/
+example : (⟨1, 2, 1/4, -1/4, true⟩ : LorNA).toCyl = ⟨2, 3/2, 1, 0⟩ ∧
+    ((⟨1, 2, 1/4, -1/4, true⟩ : LorNA).toCyl).toNA true = ⟨1, 2, 1/4, -1/4, true⟩ ∧
+    ((⟨1, 2, 1/4, -1/4, true⟩ : LorNA).toCyl).toNA false = ⟨1, 2, 1/4, -1/4, false⟩ := by decide +kernel
+
+example : ((⟨2, 3/2, 1, 0⟩ : LorCyl).toNA true).toCyl = ⟨2, 3/2, 1, 0⟩ :=
+  (C12_lor_cylinder_sinogram_roundtrip ⟨2, 3/2, 1, 0⟩ (by norm_num) (by norm_num) (by norm_num)).1
+
+/-- `C12_arccorr_roundtrip_every_representation` on the bin of the first example, handed over as two points with the direction
+    reversed (TOF position 0 stays 0) and, for the TOF geometry, in cylinder coordinates with TOF position -2 -/
+example : ∀ l, exGeom.lorOf ⟨1, 0, 2, -3, 0⟩ = some l →
+    exGeom.getBinVia true true .rev l (-1/5) (exGeom.deltaTime 0) = some ⟨1, 0, 2, -3, 0⟩ :=
+  fun l hl => C12_arccorr_roundtrip_every_representation exGeom C12_ex_wellformed ⟨1, 0, 2, -3, 0⟩ ⟨2, 4, 5⟩
+    { hseg := by decide, hv := by decide, ha := by decide, ht := by decide, htof := rfl } l hl .rev (-1/5) (by norm_num) (by norm_num)
+
+example : ∀ l, exGeomTof.lorOf ⟨1, 0, 2, -3, -2⟩ = some l →
+    exGeomTof.getBinVia true true .cylrev l (-1/5) (exGeomTof.deltaTime (-2)) = some ⟨1, 0, 2, -3, 2⟩ :=
+  fun l hl => C12_arccorr_roundtrip_every_representation exGeomTof C12_ex_tof_wellformed ⟨1, 0, 2, -3, -2⟩ ⟨2, 4, 5⟩
+    { hseg := by decide, hv := by decide, ha := by decide, ht := by decide,
+      htof := by show (-2 : Int) ≤ -2 ∧ (-2 : Int) ≤ 2; decide } l hl .cylrev (-1/5) (by norm_num) (by norm_num)
 
 end StirVerif.C12
